@@ -14,6 +14,16 @@
 (* the client did with a datagram (got) is decided from the return of the  *)
 (* call, the wire and the state of the client's socket and goroutines -    *)
 (* never from its log (lg, lgx: optional cross-check, strict only).        *)
+(* Over SCION the harness also plays the client's end host: per schedule   *)
+(* (NtpExchange!ClientRecv(m, fw)) a delivered response carries no         *)
+(* end-to-end option 253, the forwarder's genuine stamp (taken between the *)
+(* request's transmission and the socket's receive), a value from before   *)
+(* the request's transmission, a value after the socket's receive, or      *)
+(* bytes that are no timestamp (fw).  The monitor clauses do not mention   *)
+(* fw: whatever the client took as t3 has to lie in the delivery window of *)
+(* the exchange (which begins when the datagram reaches the end host, i.e. *)
+(* at the forwarder's genuine stamp) - a clamped, stale or future value    *)
+(* does not.                                                               *)
 (* Records are independent.                                                *)
 (***************************************************************************)
 EXTENDS Integers, Sequences, TLC, Json
@@ -55,6 +65,10 @@ SOutcome == (l > 0 /\ R.ev \in {"accept", "recv"} /\ R.want # "" /\ R.got # "ign
 \* the client's interleaved state (hook VerifPrev) classifies the accepted response
 \* as the wire does
 SPrevFlag == Acc => R.pil = R.il
+\* the client takes the forwarder's stamp as its receive time exactly when
+\* NtpExchange!RxTime does (a stamp inside the exchange); using the socket's own
+\* receive time instead is as good for the property
+SStampUse == (Acc /\ ~R.il /\ R.fw \in {"inside", "before", "after"}) => (R.t3s <=> R.fw = "inside")
 \* optional: where log records with the names known today were seen, they tell
 \* the same reaction, offset, round-trip delay and mode
 SLog == (l > 0 /\ R.ev \in {"accept", "recv"} /\ R.got # "ignored") => ((R.lg # "" => R.lg = R.got) /\ R.lgx)
